@@ -398,6 +398,23 @@ fn saturating_u32<T: TryInto<u32>>(v: T) -> u32 {
     v.try_into().unwrap_or(u32::MAX)
 }
 
+/* Encodes a search domain in RFC1035 Section 3.1 format.  A label is at most 63 octets (the top
+ * two bits of the length octet mean something else), and a name at most 255 octets, anything else
+ * cannot be expressed.
+ */
+fn encode_search_domain(name: &str) -> Option<Vec<u8>> {
+    let mut out = Vec::with_capacity(name.len() + 2);
+    for label in name.strip_suffix('.').unwrap_or(name).split('.') {
+        if label.is_empty() || label.len() > 63 {
+            return None;
+        }
+        out.push(label.len() as u8);
+        out.extend_from_slice(label.as_bytes());
+    }
+    out.push(0_u8);
+    (out.len() <= 255).then_some(out)
+}
+
 /* RFC4861 Section 4.6.2: The bits in the prefix after the prefix length are reserved and MUST be
  * initialized to zero by the sender.
  */
@@ -459,13 +476,21 @@ fn serialise_router_advertisement(a: &RtrAdvertisement) -> Vec<u8> {
                 }
             }
             NDOptionValue::DnsSearchList((lifetime, suffixes)) => {
+                /* The option length is a single octet counting units of 8 octets, the first of
+                 * which is the option header.
+                 */
+                const MAX_NAMES_LEN: usize = (u8::MAX as usize - 1) * 8;
                 let mut dnssl = Serialise::default();
                 for suffix in suffixes {
-                    for label in suffix.split('.') {
-                        dnssl.serialise(label.len() as u8);
-                        dnssl.serialise(label);
+                    let Some(name) = encode_search_domain(suffix) else {
+                        log::warn!("Not advertising search domain {suffix:?}: not a valid name");
+                        continue;
+                    };
+                    if dnssl.v.len() + name.len() > MAX_NAMES_LEN {
+                        log::warn!("Not advertising search domain {suffix:?}: list is too long");
+                        break;
                     }
-                    dnssl.serialise(0_u8);
+                    dnssl.serialise(&name);
                 }
                 // Pad with 0x00 to the full size.
                 while dnssl.v.len() % 8 != 0 {
